@@ -62,16 +62,18 @@ class Ctx:
         self.cov["models"].append(entry)
         return res
 
-    def witness(self, module, cfg_text, invs, label=None, timeout=900):
-        """vacuity guard: the model must reach states violating every negated
-        witness formula in `invs` (i.e. the interesting cases really occur).
-        cfg_text must list exactly these formulas as INVARIANTs."""
-        res = self.mc(module, cfg_text, label=(label or module) + " witnesses", expect_violation=list(invs),
-                      coverage=False, timeout=timeout, extra=["-continue"])
-        missing = [i for i in invs if i not in res["violated"]]
-        if missing:
-            raise MachineryError("vacuity: %s never occur in %s" % (missing, label or module))
-        return res
+    def witness(self, module, cfg_text, invs, label=None, timeout=300):
+        """vacuity guard: the model must reach a state violating each negated
+        witness formula in `invs` (i.e. the interesting case really occurs).
+        cfg_text lists these formulas as INVARIANTs; one TLC run per formula
+        (each stops at its first counterexample)."""
+        for inv in invs:
+            text = "\n".join(l for l in cfg_text.splitlines()
+                             if not l.startswith("INVARIANT ") or l.strip() == "INVARIANT " + inv) + "\n"
+            res = self.mc(module, text, label=(label or module) + " witness " + inv, expect_violation=inv,
+                          coverage=False, timeout=timeout)
+            if inv not in res["violated"]:
+                raise MachineryError("vacuity: %s never occurs in %s" % (inv, label or module))
 
     def require_actions(self, res, names):
         """vacuity guard: every named action was taken at least once"""
@@ -199,13 +201,33 @@ def cfg(spec="Spec", constants=None, invariants=(), properties=(), constraints=(
     return "\n".join(lines) + "\n" + extra
 
 
+_toy_uni = None
+
+
+def toy_dlogs(name):
+    """discrete logarithms (w.r.t. Base) of M, N, S of the default-seed
+    parameter set of a toy group, found by enumeration with the real code"""
+    global _toy_uni
+    if _toy_uni is None:
+        _toy_uni = Universe()
+    P = _toy_uni.paramset("P" + name, grp=name)
+    G = P.group
+    table = {G.Base.scalarmult(k).to_bytes(): k for k in range(G.order())}
+    try:
+        return tuple(table[e.to_bytes()] for e in (P.M, P.N, P.S))
+    except KeyError:
+        raise MachineryError("M/N/S of %s are not multiples of Base" % name)
+
+
 def toy_consts(name):
-    """cfg constants describing a toy group (Toy.tla)"""
+    """cfg constants describing a toy group and its default parameter set (Toy.tla)"""
+    m, n, s = toy_dlogs(name)
+    dl = {"PM": str(m), "PN": str(n), "PSS": str(s)}
     if name in TOY_INT:
         p, q, g = TOY_INT[name]
-        return {"TKIND": '"int"', "TP": str(p), "TQ": str(q), "TG": str(g), "TBY": "0"}
+        return dict(dl, TKIND='"int"', TP=str(p), TQ=str(q), TG=str(g), TBY="0")
     Q, d, L, By = TOY_CURVES[name]
-    return {"TKIND": '"ed"', "TP": str(Q), "TQ": str(L), "TG": str(d), "TBY": str(By)}
+    return dict(dl, TKIND='"ed"', TP=str(Q), TQ=str(L), TG=str(d), TBY=str(By))
 
 
 def toy_order(name):
